@@ -155,6 +155,9 @@ type mctx struct {
 	// the slowest guarded call of the mutant (observation)
 	slowSec              float64
 	slowEntry, slowStack string
+	nSC, nSF             int                // siacoin / siafund records the block's transactions make (estimate from the update)
+	earlierV1            *types.Transaction // a v1 / v2 transaction an earlier block of the history carried
+	earlierV2            *types.V2Transaction
 	preChecked           map[int][]string // version -> members the overflow pre-check covers (from the catalogue)
 	class                string           // when set, replaces the entry's class in keys (classes that depend on the transaction)
 	created              *createdIDs      // ids of the elements the block creates, by kind (material for ids of another kind)
@@ -478,11 +481,16 @@ func (m *mctx) apply(e ext) bool {
 		}
 	}
 	switch e.Fam {
+	case "suppera":
+		return m.applySuppEra(e)
 	case "wrap":
 		return m.applyWrap(e)
 	case "complement":
 		return m.applyComplement(e)
 	case "confuse":
+		if e.Ver == 2 {
+			return m.applyConfuse2(e)
+		}
 		// ids of the elements the transactions of the block create, by kind, in order
 		var sc, sf, fc []types.Hash256
 		for _, t := range m.b.Transactions {
@@ -976,6 +984,193 @@ func (m *mctx) applyComplement(e ext) bool {
 		return false
 	}
 	*slot = types.NewCurrency(new(big.Int).And(v, new(big.Int).SetUint64(math.MaxUint64)).Uint64(), new(big.Int).Rsh(v, 64).Uint64())
+	return true
+}
+
+// applyConfuse2: a v2 transaction is appended whose "ephemeral" parent carries the id of an element of another kind that the
+// block records earlier (for attestations: a transaction of attestations is placed in front of it).
+func (m *mctx) applyConfuse2(e ext) bool {
+	if m.b.V2 == nil {
+		return false // no v2 transactions in this block
+	}
+	addrA, skA := m.sim.K.Addr("A"), m.sim.K.SK("A")
+	var id types.Hash256
+	if strings.HasPrefix(e.X, "attestation@") {
+		n := m.nSC
+		if e.T == "sfi" {
+			n = m.nSF
+		}
+		j, ok := map[string]int{"attestation@0": 0, "attestation@n-1": n - 1, "attestation@n": n, "attestation@n+1": n + 1, "attestation@n+8": n + 8}[e.X]
+		if !ok {
+			m.unknown = "confuse variant " + e.X
+			return false
+		}
+		if j < 0 {
+			return false
+		}
+		var at types.V2Transaction
+		for i := 0; i <= j; i++ {
+			a := types.Attestation{PublicKey: skA.PublicKey(), Key: fmt.Sprintf("k%d", i), Value: []byte{byte(i)}}
+			a.Signature = skA.SignHash(m.cs.AttestationSigHash(a))
+			at.Attestations = append(at.Attestations, a)
+		}
+		m.b.V2.Transactions = append(m.b.V2.Transactions, at)
+		id = types.Hash256(at.AttestationID(at.ID(), j))
+	} else {
+		var sc, sf, fc, rev []types.Hash256
+		for _, t := range m.b.Transactions {
+			for i := range t.SiacoinOutputs {
+				sc = append(sc, types.Hash256(t.SiacoinOutputID(i)))
+			}
+			for i := range t.SiafundOutputs {
+				sf = append(sf, types.Hash256(t.SiafundOutputID(i)))
+			}
+			for i := range t.FileContracts {
+				fc = append(fc, types.Hash256(t.FileContractID(i)))
+			}
+			for _, r := range t.FileContractRevisions {
+				rev = append(rev, types.Hash256(r.ParentID))
+			}
+		}
+		for _, t := range m.b.V2.Transactions {
+			txid := t.ID()
+			for i := range t.SiacoinOutputs {
+				sc = append(sc, types.Hash256(t.SiacoinOutputID(txid, i)))
+			}
+			for i := range t.SiafundOutputs {
+				sf = append(sf, types.Hash256(t.SiafundOutputID(txid, i)))
+			}
+			for i := range t.FileContracts {
+				fc = append(fc, types.Hash256(t.V2FileContractID(txid, i)))
+			}
+			for _, r := range t.FileContractRevisions {
+				rev = append(rev, types.Hash256(r.Parent.ID))
+			}
+		}
+		pool := map[string][]types.Hash256{"siacoin-output": sc, "siafund-output": sf, "contract": fc, "revised-contract": rev}[e.X]
+		if len(pool) == 0 {
+			return false
+		}
+		id = pool[len(pool)-1]
+	}
+	pol := types.SatisfiedPolicy{Policy: m.sim.K.Policy("A"), Signatures: make([]types.Signature, 1)}
+	se := types.StateElement{LeafIndex: types.UnassignedLeafIndex}
+	var txn types.V2Transaction
+	switch e.T {
+	case "sci":
+		txn.SiacoinInputs = []types.V2SiacoinInput{{Parent: types.SiacoinElement{ID: types.SiacoinOutputID(id), StateElement: se, SiacoinOutput: types.SiacoinOutput{Value: types.NewCurrency64(1), Address: addrA}}, SatisfiedPolicy: pol}}
+		txn.SiacoinOutputs = []types.SiacoinOutput{{Value: types.NewCurrency64(1), Address: addrA}}
+	case "sfi":
+		txn.SiafundInputs = []types.V2SiafundInput{{Parent: types.SiafundElement{ID: types.SiafundOutputID(id), StateElement: se, SiafundOutput: types.SiafundOutput{Value: 1, Address: addrA}}, ClaimAddress: addrA, SatisfiedPolicy: pol}}
+		txn.SiafundOutputs = []types.SiafundOutput{{Value: 1, Address: addrA}}
+	default:
+		m.unknown = "confuse member " + e.T
+		return false
+	}
+	m.b.V2.Transactions = append(m.b.V2.Transactions, txn)
+	m.ver, m.k = 2, len(m.b.V2.Transactions)-1
+	return true
+}
+
+// applySuppEra: a block shape (as it is / a v1 transaction appended / a v2 transaction appended) and a supplement variant.
+func (m *mctx) applySuppEra(e ext) bool {
+	switch e.T {
+	case "block-as-is":
+	case "v1-transaction-appended":
+		t := types.Transaction{ArbitraryData: [][]byte{{1}}}
+		if m.earlierV1 != nil {
+			t = *wb.Clone(reflect.ValueOf(m.earlierV1)).Interface().(*types.Transaction) // (re-signing must not touch the history's block)
+		}
+		m.b.Transactions = append(m.b.Transactions, t)
+		m.bs.Transactions = append(m.bs.Transactions, consensus.V1TransactionSupplement{})
+		m.ver, m.k = 1, len(m.b.Transactions)-1
+	case "v2-transaction-appended":
+		t := types.V2Transaction{ArbitraryData: []byte{1}}
+		if m.earlierV2 != nil {
+			t = m.earlierV2.DeepCopy()
+		}
+		if m.b.V2 == nil {
+			m.b.V2 = &types.V2BlockData{Height: m.child}
+		}
+		m.b.V2.Transactions = append(m.b.V2.Transactions, t)
+		m.ver, m.k = 2, len(m.b.V2.Transactions)-1
+	default:
+		m.unknown = "block shape " + e.T
+		return false
+	}
+	ts := m.bs.Transactions
+	eachList := func(f func(ts *consensus.V1TransactionSupplement)) {
+		for i := range ts {
+			f(&ts[i])
+		}
+	}
+	switch e.X {
+	case "honest":
+	case "empty":
+		m.bs = consensus.V1BlockSupplement{}
+	case "short":
+		if len(ts) == 0 {
+			return false
+		}
+		m.bs.Transactions = ts[:len(ts)-1]
+	case "long":
+		m.bs.Transactions = append(ts, consensus.V1TransactionSupplement{})
+	case "permuted":
+		if len(ts) < 2 {
+			return false
+		}
+		reverse(ts)
+	case "lists-emptied":
+		eachList(func(t *consensus.V1TransactionSupplement) { *t = consensus.V1TransactionSupplement{} })
+		m.bs.ExpiringFileContracts = nil
+	case "lists-truncated":
+		cut := false
+		eachList(func(t *consensus.V1TransactionSupplement) {
+			if n := len(t.SiacoinInputs); n > 0 {
+				t.SiacoinInputs, cut = t.SiacoinInputs[:n-1], true
+			}
+			if n := len(t.SiafundInputs); n > 0 {
+				t.SiafundInputs, cut = t.SiafundInputs[:n-1], true
+			}
+			if n := len(t.RevisedFileContracts); n > 0 {
+				t.RevisedFileContracts, cut = t.RevisedFileContracts[:n-1], true
+			}
+			if n := len(t.StorageProofs); n > 0 {
+				t.StorageProofs, cut = t.StorageProofs[:n-1], true
+			}
+		})
+		if n := len(m.bs.ExpiringFileContracts); n > 0 {
+			m.bs.ExpiringFileContracts, cut = m.bs.ExpiringFileContracts[:n-1], true
+		}
+		if !cut {
+			return false
+		}
+	case "lists-overlong":
+		grown := false
+		eachList(func(t *consensus.V1TransactionSupplement) {
+			if n := len(t.SiacoinInputs); n > 0 {
+				t.SiacoinInputs, grown = append(t.SiacoinInputs, t.SiacoinInputs[n-1].Copy()), true
+			}
+			if n := len(t.SiafundInputs); n > 0 {
+				t.SiafundInputs, grown = append(t.SiafundInputs, t.SiafundInputs[n-1].Copy()), true
+			}
+			if n := len(t.RevisedFileContracts); n > 0 {
+				t.RevisedFileContracts, grown = append(t.RevisedFileContracts, t.RevisedFileContracts[n-1].Copy()), true
+			}
+			if n := len(t.StorageProofs); n > 0 {
+				t.StorageProofs, grown = append(t.StorageProofs, t.StorageProofs[n-1]), true
+			}
+		})
+		if n := len(m.bs.ExpiringFileContracts); n > 0 {
+			m.bs.ExpiringFileContracts, grown = append(m.bs.ExpiringFileContracts, m.bs.ExpiringFileContracts[n-1].Copy()), true
+		}
+		if !grown {
+			return false
+		}
+	default:
+		m.unknown = "supplement variant " + e.X
+		return false
+	}
 	return true
 }
 
